@@ -197,7 +197,8 @@ def run(project, chk):
                     chk.fail("P5", fi.short, norm_text(n), project.loc(m, n), "hash() of a value: str hashes differ between interpreter processes")
                 if qc == "builtins.id":
                     par = pm.get(n)
-                    fine = (isinstance(par, ast.Subscript) and par.slice is n) or (isinstance(par, ast.Compare) and par.left is n and all(isinstance(o, (ast.In, ast.NotIn, ast.Eq, ast.NotEq)) for o in par.ops))
+                    fine = (isinstance(par, ast.Subscript) and par.slice is n) or (isinstance(par, ast.Compare) and par.left is n and all(isinstance(o, (ast.In, ast.NotIn, ast.Eq, ast.NotEq)) for o in par.ops)) \
+                        or (isinstance(par, ast.Call) and isinstance(par.func, ast.Attribute) and par.func.attr in ("get", "pop", "setdefault", "__contains__", "__getitem__") and par.args and par.args[0] is n)
                     chk.check(fine, "P5", fi.short, norm_text(par if par is not None else n), project.loc(m, n),
                               "id() is used only as a dictionary key / membership test", how="parent is a subscript index or an `in` test",
                               message="id() of an object used as a value: depends on memory layout")
